@@ -1,8 +1,9 @@
 (** Proofs about Model/OpRace.v: the race between futures polled / dropped on future threads
     and [Ring::poll] on the ring thread, at the granularity of the hook-B scheduling points.
-    Statements for C03 (wake-ups) and C06 (reclamation, cancellation) over ALL numbers of
-    operations and threads, capacities, programs and interleavings: one invariant, proved by
-    induction over the event list. *)
+    Statements for C02 (own results, once, in order), C03 (wake-ups) and C06 (reclamation,
+    cancellation) over ALL numbers of operations and threads, operation kinds (single-shot,
+    multishot, two-step), kernel completion scripts, capacities, programs and interleavings: one
+    invariant, proved by induction over the event list. *)
 From A10 Require Import Base.Word Base.Run Model.OpRace.
 From Coq Require Import ZifyN ZifyBool ZifyNat Permutation.
 Ltac Zify.zify_post_hook ::= Z.div_mod_to_equations.
@@ -410,7 +411,7 @@ Ltac fut_split s k HI :=
   split_matches.
 
 Ltac ring_split s :=
-  unfold rstep_with, dispatch, o_update, enter, wb_done, begin_dispatch; cbv beta iota zeta;
+  unfold rstep_with, rstep_gen, dispatch_with, o_update, enter, wb_done, begin_dispatch; cbv beta iota zeta;
   destruct (r_pc s) eqn:Hpc;
   split_matches.
 
@@ -979,7 +980,7 @@ Proof.
       repeat match goal with H : c_more _ = _ |- _ => rewrite H in * end; try congruence.
     all: split; [reflexivity|split; [rewrite ?Hpc; auto|]].
     all: rewrite ?Nat.eqb_refl; ssimpl; split; [try assumption; try reflexivity|eexists _, _; split; [reflexivity|assumption]].
-  - intros s i c q n Hpc Hn Hq Hh Hr. unfold step, step_with, rstep_with, dispatch, o_update.
+  - intros s i c q n Hpc Hn Hq Hh Hr. unfold step, step_with, rstep_with, rstep_gen, dispatch_with, o_update.
     destruct Hpc as [Hpc|Hpc]; rewrite Hpc, Hn, Hq, Hh, Hr; cbv beta iota zeta.
     all: destruct (c_more c) eqn:Hm; destruct (o_kind (ops s i)) eqn:Hk; cbn [negb orb is_multi].
     all: match goal with |- context [advance ?x] => destruct (advance_eq x) as [q0 [n0 [p0 [E _]]]]; rewrite E end.
@@ -1056,14 +1057,14 @@ Proof.
     split; [|split; [|split]].
     + intros Hpc. destruct (Hw2 Hpc) as [Ha Hb]. cbv zeta.
       assert (Hout : snd (step s (T 0)) = map OWakeB (firstn (Nat.min (r_avail s) (length (blocked s))) (blocked s))).
-      { unfold step, step_with, rstep_with. rewrite Hpc.
+      { unfold step, step_with, rstep_with, rstep_gen. rewrite Hpc.
         destruct (blocked s) as [|x l]; [cbn [snd]; rewrite firstn_nil; reflexivity|reflexivity]. }
       split; [exact Hout|]. split; [exact Ha|]. split; [exact Hb|].
       intros w r Hbl. rewrite Hout, Hbl. cbn [length].
       destruct (r_avail s) as [|a]; [lia|]. cbn [Nat.min firstn map In]. left; reflexivity.
-    + intros Hpc. unfold step, step_with, rstep_with. rewrite Hpc. split; reflexivity.
-    + intros Hpc. unfold step, step_with, rstep_with. rewrite Hpc. reflexivity.
-    + intros Hpc Hroom. unfold step, step_with, rstep_with. rewrite Hpc. rewrite (Hw1 Hpc).
+    + intros Hpc. unfold step, step_with, rstep_with, rstep_gen. rewrite Hpc. split; reflexivity.
+    + intros Hpc. unfold step, step_with, rstep_with, rstep_gen. rewrite Hpc. reflexivity.
+    + intros Hpc Hroom. unfold step, step_with, rstep_with, rstep_gen. rewrite Hpc. rewrite (Hw1 Hpc).
       destruct (Nat.eqb_spec (N.to_nat (cap s - (sqt s - sqh s))) 0) as [Hz|Hz]; [lia|reflexivity].
 Qed.
 
@@ -1163,7 +1164,7 @@ Proof.
       exists i; (split; [destruct (o_alloc (ops s i)); [discriminate|reflexivity]|split; [assumption|]]).
     all: try (left; split; [reflexivity|eexists _, _; reflexivity]).
     all: right; exists k; split; [reflexivity|]; eexists _, _; split; [eassumption|cbn; apply Nat.eqb_refl].
-  - intros s i c q n Hpc Hn Hq Hh Hd. unfold step, step_with, rstep_with, dispatch, o_update.
+  - intros s i c q n Hpc Hn Hq Hh Hd. unfold step, step_with, rstep_with, rstep_gen, dispatch_with, o_update.
     destruct Hpc as [Hpc|Hpc]; rewrite Hpc, Hn, Hq, Hh, Hd; cbv beta iota zeta.
     all: destruct (c_more c) eqn:Hm.
     all: match goal with |- context [advance ?x] => destruct (advance_eq x) as [q0 [n0 [p0 [E _]]]]; rewrite E end.
@@ -1179,6 +1180,135 @@ Proof.
   - intros s e i0. step_split0 s e; try (left; reflexivity);
       try (updcase i0 i; [|left; reflexivity]); ssimpl; try (left; reflexivity); try (left; lia).
     all: right; split; [lia|reflexivity].
+Qed.
+
+(** ** C02 under interleaving: every operation receives exactly its own results, once, in order.
+
+    Ledgers per operation: [posted s i] = every completion the kernel has posted for operation [i]
+    so far, in order ([g_disp]: those [Shared::update] was called with, then those waiting in the
+    completion queue); [g_out i] = every value a poll of [i] handed out, in order. Clauses (O), (D),
+    (P) pin the ledgers to single steps, for arbitrary states: (O) [g_out i] grows exactly by the
+    [OReady i v] observations; (D) [g_disp i] grows only in the ring thread's dispatch step of the
+    completion of [i] at the head of the queue, by that completion (completions are routed by the
+    operation they name: no result reaches another operation's state); (P) [posted] only grows, at
+    its end.
+    Main clause, EVERY state reachable by ANY interleaving, all kinds / scripts / capacities:
+    - MULTISHOT: the values handed out are a PREFIX of the results the kernel posted for that very
+      operation, each once, in order; while the stream is live, dispatched = handed out ++ queued;
+      when the stream has ended ([Complete], clause (E): the end marker is handed out only with
+      status Done and an empty queue) EVERYTHING posted was handed out and a final completion
+      (no F_MORE) was among it;
+    - SINGLE / TWO-STEP: at most one value is ever handed out; when one was, the final completion
+      had been dispatched, nothing of the operation is left in the queue, and the value is
+      [last_res] of what the kernel posted for it: the result of its last completion without
+      F_NOTIF (K2 shape: when exactly one posted completion is not a notification it is that
+      completion's -- the first --, last clause; the zero-copy notification does not overwrite it). *)
+Definition outs_of (i : nat) (out : list obs) : list Z :=
+  flat_map (fun o => match o with OReady j v => if Nat.eqb j i then [v] else [] | _ => [] end) out.
+
+Lemma outs_of_wakes i l : outs_of i (map OWakeB l) = [].
+Proof. induction l as [|x l IH]; [reflexivity|]. exact IH. Qed.
+Lemma outs_of_consumed i l : outs_of i (map OConsumed l) = [].
+Proof. induction l as [|x l IH]; [reflexivity|]. exact IH. Qed.
+Lemma outs_of_wake_obs i o : outs_of i (wake_obs o) = [].
+Proof. unfold wake_obs. destruct (o_waker o); reflexivity. Qed.
+
+Lemma ex_add_eq {A} (x y : list A) : x = y -> exists add, x = y ++ add.
+Proof. intros ->. exists []. symmetry. apply app_nil_r. Qed.
+
+Lemma posted_grows s e i0 : exists add, posted (fst (step s e)) i0 = posted s i0 ++ add.
+Proof.
+  unfold posted. step_split0 s e;
+    try match goal with H : cq s = _ |- _ => rewrite ?H end;
+    try (apply ex_add_eq; reflexivity);
+    try (destruct Hkadd as [add ->]; exists (ents i0 add); rewrite ents_app, app_assoc; reflexivity);
+    try (rewrite Hadve; apply ex_add_eq; reflexivity);
+    try (rewrite Hadve; match goal with H : cq s = _ |- _ => rewrite H end; apply ex_add_eq; reflexivity);
+    try (updcase i0 i; ssimpl; apply ex_add_eq; reflexivity).
+  all: rewrite Hadve; cbn [ents flat_map]; fold (ents i0 l); apply ex_add_eq; updcase i0 i; ssimpl; rewrite ?Nat.eqb_refl;
+    try (destruct (Nat.eqb_spec i i0); [congruence|]); rewrite <- ?app_assoc; reflexivity.
+Qed.
+
+Lemma last_res_only l1 c0 l2 :
+  forallb c_notif l2 = true -> c_notif c0 = false -> last_res (l1 ++ c0 :: l2) = c_res c0.
+Proof.
+  intros H2 H0. unfold last_res. rewrite fold_left_app. cbn [fold_left]. rewrite H0.
+  generalize (c_res c0). induction l2 as [|c l IH]; intros z; [reflexivity|].
+  cbn [forallb] in H2. apply andb_prop in H2. destruct H2 as [Hc Hl]. cbn [fold_left]. rewrite Hc. apply IH. exact Hl.
+Qed.
+
+Definition race_results_are_own_in_order : Prop :=
+  (forall cap0 auto0 kinds canc scr npolls progs es, progs_ok progs ->
+     let s := fst (run step (init cap0 auto0 kinds canc scr npolls progs) es) in
+     forall i,
+       (o_kind (ops s i) = Multi ->
+          (exists rest, map c_res (posted s i) = g_out (ops s i) ++ rest)
+          /\ (o_st (ops s i) = Running \/ o_st (ops s i) = Done ->
+                map c_res (g_disp (ops s i)) = g_out (ops s i) ++ o_q (ops s i))
+          /\ (o_st (ops s i) = Complete ->
+                g_out (ops s i) = map c_res (posted s i) /\ has_final (posted s i) = true))
+       /\ (o_kind (ops s i) <> Multi ->
+            length (g_out (ops s i)) <= 1
+            /\ forall v, g_out (ops s i) = [v] ->
+                 o_st (ops s i) = Complete /\ has_final (posted s i) = true
+                 /\ posted s i = g_disp (ops s i) /\ v = last_res (posted s i)))
+  /\ (forall s e i, g_out (ops (fst (step s e)) i) = g_out (ops s i) ++ outs_of i (snd (step s e)))
+  /\ (forall s e i, g_disp (ops (fst (step s e)) i) <> g_disp (ops s i) ->
+        e = T 0 /\ (r_pc s = RDisp \/ r_pc s = RDispSpin)
+        /\ exists c q, cq s = COp i c :: q /\ g_disp (ops (fst (step s e)) i) = g_disp (ops s i) ++ [c])
+  /\ (forall s e i, exists add, posted (fst (step s e)) i = posted s i ++ add)
+  /\ (forall s e i, In (OEnd i) (snd (step s e)) ->
+        o_kind (ops s i) = Multi /\ o_st (ops s i) = Done /\ o_q (ops s i) = []
+        /\ o_st (ops (fst (step s e)) i) = Complete)
+  /\ (forall l1 c0 l2, forallb c_notif l2 = true -> c_notif c0 = false -> last_res (l1 ++ c0 :: l2) = c_res c0).
+
+Lemma race_results_are_own_in_order_holds : race_results_are_own_in_order.
+Proof.
+  split; [|split; [|split; [|split; [|split]]]].
+  - intros cap0 auto0 kinds canc scr npolls progs es Hp s i.
+    pose proof (reachable_inv cap0 auto0 kinds canc scr npolls progs es Hp) as HI. fold s in HI.
+    pose proof (inv_L _ HI i) as [L1 [L2 L3]]. pose proof (inv_tk _ HI i) as Ht. pose proof (inv_cov _ HI i) as Hc.
+    assert (Hnone : o_st (ops s i) = Complete -> ents i (cq s) = []).
+    { intros Hst. rewrite Hst, andb_false_r in Ht. apply (no_token_no_entry i _ _ Hc). unfold tokens in Ht. lia. }
+    split.
+    + intros Hk. rewrite Hk in L3. destruct L3 as [[rest L3a] [L3b L3c]]. split; [|split].
+      * exists (rest ++ map c_res (ents i (cq s))). unfold posted. rewrite map_app, L3a, app_assoc. reflexivity.
+      * exact L3b.
+      * intros Hst. unfold posted. rewrite (Hnone Hst), app_nil_r. split; [symmetry; exact (L3c Hst)|].
+        apply L2. right. exact Hst.
+    + intros Hk.
+      assert (L3' : (o_st (ops s i) = Running \/ o_st (ops s i) = Done ->
+                      o_res (ops s i) = last_res (g_disp (ops s i)) /\ g_out (ops s i) = [])
+                    /\ (o_st (ops s i) = Complete -> g_out (ops s i) = [last_res (g_disp (ops s i))])
+                    /\ (o_st (ops s i) = Dropped -> g_out (ops s i) = []))
+        by (destruct (o_kind (ops s i)); [exact L3|congruence|exact L3]).
+      destruct L3' as [La [Lb Lc]].
+      assert (Hcases : g_out (ops s i) = [] \/ o_st (ops s i) = Complete).
+      { destruct (o_st (ops s i)) eqn:Hst; auto.
+        - left. exact (proj2 (L1 eq_refl)).
+        - left. exact (proj2 (La (or_introl eq_refl))).
+        - left. exact (proj2 (La (or_intror eq_refl))). }
+      split.
+      * destruct Hcases as [H|H]; [rewrite H; cbn; lia|rewrite (Lb H); cbn; lia].
+      * intros v Hv. destruct Hcases as [H|H]; [rewrite H in Hv; discriminate|].
+        unfold posted. rewrite (Hnone H), app_nil_r. split; [exact H|]. split; [apply L2; right; exact H|].
+        split; [reflexivity|]. rewrite (Lb H) in Hv. injection Hv as <-. reflexivity.
+  - intros s e i0.
+    step_split0 s e; rewrite ?outs_of_wakes, ?outs_of_consumed, ?outs_of_wake_obs; cbn [outs_of flat_map app];
+      rewrite ?app_nil_r; try reflexivity;
+      updcase i0 i; ssimpl; rewrite ?Nat.eqb_refl, ?app_nil_r; try reflexivity;
+      destruct (Nat.eqb_spec i i0); try congruence; rewrite ?app_nil_r; reflexivity.
+  - intros s e i0. step_split0 s e; intros H; try (exfalso; apply H; reflexivity);
+      try (updcase i0 i; [|exfalso; apply H; reflexivity]); ssimpl;
+      try (exfalso; apply H; reflexivity).
+    all: split; [reflexivity|split; [rewrite ?Hpc; auto|eexists _, _; split; reflexivity]].
+  - exact posted_grows.
+  - intros s e i0. step_split0 s e; intros H; cbn [In] in H;
+      repeat (destruct H as [H|H]; try discriminate); try contradiction;
+      try (apply in_map_iff in H; destruct H as [? [? ?]]; discriminate);
+      try (apply In_wake_obs in H; destruct H as [? H]; discriminate).
+    all: injection H as <-; rewrite upd_same; ssimpl; auto.
+  - exact last_res_only.
 Qed.
 
 (** * Non-vacuity: a concrete interleaving
@@ -1244,7 +1374,7 @@ Definition quiet (s : sys) : Prop :=
 Lemma quiet_step s : quiet s ->
   quiet (fst (step_h15 s (T 0))) /\ snd (step_h15 s (T 0)) = [] /\ blocked (fst (step_h15 s (T 0))) = blocked s.
 Proof.
-  intros [Hcq [Hsq [Hn Hpc]]]. unfold quiet, step_h15, step_with, rstep_with.
+  intros [Hcq [Hsq [Hn Hpc]]]. unfold quiet, step_h15, step_with, rstep_with, rstep_gen.
   destruct (r_pc s) eqn:E; try contradiction.
   - destruct (r_polls s); ssimpl; rewrite ?E; auto.
   - rewrite Hcq. ssimpl. auto.
@@ -1344,6 +1474,135 @@ Qed.
 Lemma race_reclaimed_c06a_leaks_holds : race_reclaimed_c06a_leaks.
 Proof.
   exists c06a_progs, c06a_events. split; [exact c06a_progs_ok|]. vm_compute. repeat split; reflexivity.
+Qed.
+
+(** * Non-vacuity for the multishot and two-step clauses
+
+    Two slots; operation 0 is a multishot accept whose request posts 11, 12 (F_MORE) and 13
+    (final), operation 1 a zero-copy send posting 21 (F_MORE) and the notification. One future
+    thread submits both; after the kernel consumed them it re-polls the stream with waker 3
+    (replacing waker 1); the kernel posts 11 and 21; the ring thread dispatches both: the stream's
+    LATEST waker 3 is woken, the send's result wakes nobody and its waker stays ([ex_mid] ends
+    here: the hypotheses of the multishot clause hold with a queued result). The thread takes 11,
+    finds the queue empty (Pending, waker 5), re-polls the send (waker 6); the kernel posts 12, 13
+    (final) and the notification; one ring poll dispatches all three: waker 5 for the stream (13
+    finds no waker stored), waker 6 for the send -- only now, on its FINAL completion. The thread
+    takes 12, 13, the send's result 21 (not the notification's 0), drops the send, gets the end of
+    the stream and drops it. *)
+Definition mr (r : Z) : cqe := {| c_res := r; c_more := true; c_notif := false |}.
+Definition ntf : cqe := {| c_res := 0; c_more := false; c_notif := true |}.
+Definition exk_progs : list (list call) :=
+  [[Poll 0 1%N; Poll 1 2%N; Poll 0 3%N; Poll 0 4%N; Poll 0 5%N; Poll 1 6%N; Poll 0 7%N; Poll 0 8%N; Poll 1 9%N;
+    DropOp 1; Poll 0 10%N; DropOp 0]].
+Definition exk_scripts : list (list cqe) := [[mr 11; mr 12; fin 13]; [mr 21; ntf]].
+Definition exk_mid : list ev :=
+  repeat (T 1) 16 ++ repeat (T 0) 14 ++ [T 1; K 0; K 1] ++ repeat (T 0) 4.
+Definition exk_all : list ev :=
+  exk_mid ++ repeat (T 0) 4 ++ [T 1; T 1; T 1; K 0; K 0; K 1] ++ repeat (T 0) 9 ++ repeat (T 1) 6.
+
+Lemma exk_progs_ok : progs_ok exk_progs.
+Proof.
+  split.
+  - intros [|t]; cbn [nth exk_progs linear]; repeat split; try exact I;
+      try (intros H; uses_inv H; discriminate). destruct t; exact I.
+  - intros t1 t2 i H1 H2.
+    destruct t1 as [|t1]; destruct t2 as [|t2]; try reflexivity; cbn [nth exk_progs] in H1, H2;
+      try (exfalso; destruct t1; exact (uses_nil _ H1)); try (exfalso; destruct t2; exact (uses_nil _ H2)).
+Qed.
+
+Example race_example_kinds :
+  progs_ok exk_progs
+  /\ (let s := fst (run step (init 2%N false [Multi; TwoStep] [true; true] exk_scripts 3 exk_progs) exk_mid) in
+      (* multishot: latest waker 3, a result queued, woken; two-step: result stored, not woken, waker kept *)
+      o_kind (ops s 0) = Multi /\ o_st (ops s 0) = Running /\ g_lastw (ops s 0) = Some 3%N /\ o_q (ops s 0) = [11%Z]
+      /\ g_woken (ops s 0) = true
+      /\ o_st (ops s 1) = Running /\ o_res (ops s 1) = 21%Z /\ g_lastw (ops s 1) = Some 2%N
+      /\ g_woken (ops s 1) = false /\ o_waker (ops s 1) = Some 2%N)
+  /\ (let r := run step (init 2%N false [Multi; TwoStep] [true; true] exk_scripts 3 exk_progs) exk_all in
+      snd r = [OPending 0 1%N; OPending 1 2%N; OConsumed (Submit 0); OConsumed (Submit 1); OPending 0 3%N; OWake 3%N;
+               OReady 0 11%Z; OPending 0 5%N; OPending 1 6%N; OWake 5%N; OWake 6%N; OReady 0 12%Z; OReady 0 13%Z;
+               OReady 1 21%Z; OFree 1 true; OEnd 0; OFree 0 true]
+      /\ g_out (ops (fst r) 0) = [11%Z; 12%Z; 13%Z] /\ map c_res (posted (fst r) 0) = [11%Z; 12%Z; 13%Z]
+      /\ g_out (ops (fst r) 1) = [21%Z] /\ posted (fst r) 1 = [mr 21; ntf]
+      /\ g_frees (ops (fst r) 0) = 1 /\ g_frees (ops (fst r) 1) = 1 /\ g_bad (fst r) = false).
+Proof. split; [exact exk_progs_ok|]. split; vm_compute; repeat split; reflexivity. Qed.
+
+(** * Seeded change C02-a: [Multishot::next] takes with [swap_remove(0)]
+
+    [step_c02a]. A valid interleaving: the stream is submitted, the kernel posts 11, 12, 13, one
+    ring poll dispatches all three (queue [11; 12; 13]), three polls: 11 -- and 13 has taken its
+    place --, 13, 12. The handed-out order differs from the posted order: the multishot clause of
+    [race_results_are_own_in_order] (handed out = a prefix of posted) fails. *)
+Definition c02a_progs : list (list call) := [[Poll 0 1%N; Poll 0 2%N; Poll 0 3%N; Poll 0 4%N]].
+Definition c02a_events : list ev :=
+  repeat (T 1) 8 ++ repeat (T 0) 20 ++ [K 0; K 0; K 0] ++ repeat (T 0) 20 ++ [T 1; T 1; T 1].
+
+Definition race_stream_order_c02a_refuted : Prop :=
+  exists progs scr es, progs_ok progs /\
+    let s := fst (run step_c02a (init 2%N false [Multi] [true] scr 2 progs) es) in
+    map c_res (posted s 0) = [11%Z; 12%Z; 13%Z] /\ g_out (ops s 0) = [11%Z; 13%Z; 12%Z]
+    /\ ~ (exists rest, map c_res (posted s 0) = g_out (ops s 0) ++ rest)
+    (* the unchanged code, same interleaving *)
+    /\ g_out (ops (fst (run step (init 2%N false [Multi] [true] scr 2 progs) es)) 0) = [11%Z; 12%Z; 13%Z].
+
+Lemma c02a_progs_ok : progs_ok c02a_progs.
+Proof.
+  split.
+  - intros [|t]; cbn [nth c02a_progs linear]; repeat split; try exact I. destruct t; exact I.
+  - intros t1 t2 i H1 H2.
+    destruct t1 as [|t1]; destruct t2 as [|t2]; try reflexivity; cbn [nth c02a_progs] in H1, H2;
+      try (exfalso; destruct t1; exact (uses_nil _ H1)); try (exfalso; destruct t2; exact (uses_nil _ H2)).
+Qed.
+
+Lemma race_stream_order_c02a_refuted_holds : race_stream_order_c02a_refuted.
+Proof.
+  exists c02a_progs, [[mr 11; mr 12; mr 13]], c02a_events. split; [exact c02a_progs_ok|].
+  split; [vm_compute; reflexivity|]. split; [vm_compute; reflexivity|]. split; [|vm_compute; reflexivity].
+  intros [rest H]. vm_compute in H. discriminate.
+Qed.
+
+(** * Seeded change C06-b: a dropped two-step operation released on its first completion
+
+    [step_c06b]. A zero-copy send is submitted and consumed, its future dropped (the cancel request
+    loses: -EALREADY), the kernel posts the result completion (F_MORE): its dispatch frees the state
+    although the request is still in flight and its notification outstanding (clause (c) of
+    [race_state_reclaimed_exactly_once] fails: freed with one item owed). When the notification is
+    posted and dispatched the ring thread takes the mutex inside the freed box ([g_bad]) and frees
+    it a second time. On the unchanged code ([step]) the same interleaving frees exactly once, on
+    the notification. *)
+Definition c06b_progs : list (list call) := [[Poll 0 1%N; DropOp 0]].
+Definition c06b_events1 : list ev :=
+  repeat (T 1) 8 ++ repeat (T 0) 14 ++ repeat (T 1) 8 ++ repeat (T 0) 14 ++ [K 0] ++ repeat (T 0) 14.
+Definition c06b_events2 : list ev := c06b_events1 ++ [K 0] ++ repeat (T 0) 14.
+
+Definition race_two_step_c06b_freed_early : Prop :=
+  exists progs scr es1 es2, progs_ok progs /\
+    (let r := run step_c06b (init 2%N false [TwoStep] [false] scr 12 progs) es1 in
+     let s := fst r in
+     snd r = [OPending 0 1%N; OConsumed (Submit 0); OConsumed (Cancel 0); OFree 0 true]
+     /\ o_st (ops s 0) = Dropped /\ o_alloc (ops s 0) = false /\ inflight s = [0] /\ scripts s 0 = [ntf]
+     /\ tokens s 0 = 1 /\ g_bad s = false)
+    /\ (let s := fst (run step_c06b (init 2%N false [TwoStep] [false] scr 12 progs) (es1 ++ es2)) in
+        g_bad s = true /\ g_frees (ops s 0) = 2)
+    /\ (let r := run step (init 2%N false [TwoStep] [false] scr 12 progs) (es1 ++ es2) in
+        snd r = [OPending 0 1%N; OConsumed (Submit 0); OConsumed (Cancel 0); OFree 0 true]
+        /\ o_alloc (ops (fst (run step (init 2%N false [TwoStep] [false] scr 12 progs) es1)) 0) = true
+        /\ g_bad (fst r) = false /\ g_frees (ops (fst r) 0) = 1 /\ inflight (fst r) = []).
+
+Lemma c06b_progs_ok : progs_ok c06b_progs.
+Proof.
+  split.
+  - intros [|t]; cbn [nth c06b_progs linear]; repeat split; try exact I;
+      try (intros H; uses_inv H). destruct t; exact I.
+  - intros t1 t2 i H1 H2.
+    destruct t1 as [|t1]; destruct t2 as [|t2]; try reflexivity; cbn [nth c06b_progs] in H1, H2;
+      try (exfalso; destruct t1; exact (uses_nil _ H1)); try (exfalso; destruct t2; exact (uses_nil _ H2)).
+Qed.
+
+Lemma race_two_step_c06b_freed_early_holds : race_two_step_c06b_freed_early.
+Proof.
+  exists c06b_progs, [[mr 21; ntf]], c06b_events1, ([K 0] ++ repeat (T 0) 14). split; [exact c06b_progs_ok|].
+  split; [vm_compute; repeat split; reflexivity|]. split; vm_compute; repeat split; reflexivity.
 Qed.
 
 (** * Towards a linearisation (partial)
